@@ -5,3 +5,6 @@ import Properties.C03
 #print axioms Hive.C03.pickup_needs_waiting
 #print axioms Hive.C03.requests_change_only_by
 #print axioms Hive.C03.dropoff_once_then_idle
+#print axioms Hive.C03.run_resolved_once
+#print axioms Hive.C03.run_waiting_unresolved
+#print axioms Hive.C03.run_none_vanishes
